@@ -459,6 +459,26 @@ func init() {
 		(*cell).(Struct)[0] = w.newChan(1)
 		return cell
 	})
+	// time.NewTimer / time.After: a timer whose channel never delivers (the model explores the
+	// executions in which no timeout elapses; what happens when one does is outside, recorded as a cut)
+	reg("time.NewTimer", func(w *World, t *Thread, fr *frame, fn *ssa.Function, args []Value) Value {
+		tt := fn.Signature.Results().At(0).Type()
+		cell := new(Value)
+		*cell = w.zero(deref(tt))
+		(*cell).(Struct)[0] = w.newChan(1)
+		if w.res != nil {
+			w.res.Cuts["timers never fire (time.NewTimer / time.After / time.AfterFunc)"]++
+		}
+		return cell
+	})
+	reg("time.After", func(w *World, t *Thread, fr *frame, fn *ssa.Function, args []Value) Value {
+		if w.res != nil {
+			w.res.Cuts["timers never fire (time.NewTimer / time.After / time.AfterFunc)"]++
+		}
+		return w.newChan(1)
+	})
+	reg("(*time.Timer).Stop", func(w *World, t *Thread, fr *frame, fn *ssa.Function, args []Value) Value { return w.tt.T })
+	reg("(*time.Timer).Reset", func(w *World, t *Thread, fr *frame, fn *ssa.Function, args []Value) Value { return w.tt.T })
 	reg("(*time.Ticker).Stop", func(w *World, t *Thread, fr *frame, fn *ssa.Function, args []Value) Value { return nil })
 	reg("(*time.Ticker).Reset", func(w *World, t *Thread, fr *frame, fn *ssa.Function, args []Value) Value { return nil })
 }
